@@ -138,18 +138,21 @@ Print Assumptions C05_composite_event_is_driver_event.
    for EVERY list of tasks -- any number, on either module, spawned at start-up or by a message
    at any instant, any durations (zero, equal, coinciding across tasks and modules ...) -- the
    run of the model ENDS (the loop's fuel is never exhausted), every task has finished, and
-   task k has logged exactly  exp_run (t_start k) (t_steps k):  the entry after sleep(d) begun
+   task k has logged exactly  exp_run (t_start k) None (t_steps k)  (None: the task starts without an interval):  the entry after sleep(d) begun
    at x is x + d, after sleep_until(t) it is max x t -- every await returned at exactly its
    deadline.  [init_ok]: the task is as the decoder produces it (not yet polled, module < 2),
    its steps lie in the fragment and the deadlines it prescribes are finite (< TMAX); [decode_init_ok] shows that every script line over the
    fragment decodes to such tasks.  The proof composes the driver invariant
    (event_body_inv / deactivate_snap), the futures' contract, the executor's run over the
    woken tasks, and the event-set facts of C01's specification (SI: fetch returns a pending
-   event of minimal time).  Other steps (timeout, select, interval, reset, drop, hand-over,
-   message-driven receives) are covered for the composite by the correspondence check only. *)
+   event of minimal time).  The same theorem covers the steps added to the fragment since --
+   reset / drop, timeout(d, sleep x), interval, the keep-alive select of step 13: see the
+   theorems (1)-(4) below, which spell out frag_step and exp_run for them.  Still covered
+   for the composite by the correspondence check only: timeout over flip or a receive, hand-over of a polled Sleep, message-driven receives, and
+   Duration::MAX deadlines that stay registered. *)
 Theorem C05_composite_sleep_exact : forall ts, Forall init_ok ts ->
   exists w, run_tasks true ts = (w, true) /\
-    Forall2 (fun tk0 tk => t_fin tk = true /\ t_log tk = exp_run (t_start tk0) (t_steps tk0)) ts (w_tasks w).
+    Forall2 (fun tk0 tk => t_fin tk = true /\ t_log tk = exp_run (t_start tk0) None (t_steps tk0)) ts (w_tasks w).
 Proof. exact composite_sleep_exact. Qed.
 Print Assumptions C05_composite_sleep_exact.
 
@@ -157,7 +160,7 @@ Print Assumptions C05_composite_sleep_exact.
    demand: after any number n of loop iterations each task's log is a prefix of exp_run *)
 Theorem C05_composite_sleep_prefix : forall ts, Forall init_ok ts -> forall n,
   let w := match Common.Fuel.iter_nat n (loop_step true) (sim_start true (init_world ts)) with inl w => w | inr w => w end in
-  Forall2 (fun tk0 tk => exists rest, exp_run (t_start tk0) (t_steps tk0) = t_log tk ++ rest) ts (w_tasks w).
+  Forall2 (fun tk0 tk => exists rest, exp_run (t_start tk0) None (t_steps tk0) = t_log tk ++ rest) ts (w_tasks w).
 Proof. exact composite_sleep_prefix. Qed.
 Print Assumptions C05_composite_sleep_prefix.
 
@@ -171,11 +174,11 @@ Print Assumptions C05_composite_sleep_prefix.
 Theorem C05_composite_reset_drop_exact :
   (forall p d1 d2, d1 < FARK -> d2 < FARK -> frag_step (SReset p d1 d2)) /\
   (forall d, d < FARK -> frag_step (SDropSleep d)) /\
-  (forall now p d1 d2 r, exp_run now (SReset p d1 d2 :: r) = (now + d2) :: exp_run (now + d2) r) /\
-  (forall now d r, exp_run now (SDropSleep d :: r) = now :: exp_run now r) /\
+  (forall now iv p d1 d2 r, exp_run now iv (SReset p d1 d2 :: r) = (now + d2) :: exp_run (now + d2) iv r) /\
+  (forall now iv d r, exp_run now iv (SDropSleep d :: r) = now :: exp_run now iv r) /\
   (forall ts, Forall init_ok ts ->
      exists w, run_tasks true ts = (w, true) /\
-       Forall2 (fun tk0 tk => t_fin tk = true /\ t_log tk = exp_run (t_start tk0) (t_steps tk0)) ts (w_tasks w)).
+       Forall2 (fun tk0 tk => t_fin tk = true /\ t_log tk = exp_run (t_start tk0) None (t_steps tk0)) ts (w_tasks w)).
 Proof.
   split; [intros p d1 d2 H1 H2; split; assumption|]. split; [intros d H; exact H|].
   split; [reflexivity|]. split; [reflexivity|exact composite_sleep_exact].
@@ -196,19 +199,111 @@ Print Assumptions C05_composite_reset_drop_exact.
    exp_run does not depend on that order since the tasks of the fragment do not communicate. *)
 Theorem C05_composite_timeout_sleep_exact :
   (forall d x, d < FARK -> x < FARK -> frag_step (STimeout d (ISleep x))) /\
-  (forall now d x r, exp_run now (STimeout d (ISleep x) :: r) =
-     (now + N.min x d) :: (if x <=? d then 1 else 0) :: exp_run (now + N.min x d) r) /\
+  (forall now iv d x r, exp_run now iv (STimeout d (ISleep x) :: r) =
+     (now + N.min x d) :: (if x <=? d then 1 else 0) :: exp_run (now + N.min x d) iv r) /\
   (forall ts, Forall init_ok ts ->
      exists w, run_tasks true ts = (w, true) /\
-       Forall2 (fun tk0 tk => t_fin tk = true /\ t_log tk = exp_run (t_start tk0) (t_steps tk0)) ts (w_tasks w)).
+       Forall2 (fun tk0 tk => t_fin tk = true /\ t_log tk = exp_run (t_start tk0) None (t_steps tk0)) ts (w_tasks w)).
 Proof.
   split; [intros d x H1 H2; split; assumption|].
-  split; [intros now d x r; cbn [exp_run]; destruct (x <=? d); reflexivity|exact composite_sleep_exact].
+  split; [intros now iv d x r; cbn [exp_run]; destruct (x <=? d); reflexivity|exact composite_sleep_exact].
 Qed.
 Print Assumptions C05_composite_timeout_sleep_exact.
 
+(* (3) interval ticks inside the proved fragment, all three MissedTickBehavior variants.  The
+   log demanded of a task now depends on its interval, of which exp_run carries (nominal
+   instant nx of the next tick, period, behaviour):  interval(period) created at instant x has
+   nx = x (creation, like dropping it, takes no time and logs nothing);  tick().await begun at
+   [now] returns at max(now, nx) -- at nx if the task is early, AT ONCE if the tick is due or
+   was missed -- with the value nx (logged [instant; value]), and the next tick is nominally
+   due at tick_next: nx + period if the tick was taken at most 5 ms late (any behaviour) and
+   always under Burst (so a late task catches up, tick k has the value start + k * period
+   whatever the delays: exp_run_burst);  for a tick taken more than 5 ms late, now + period
+   under Delay, and under Skip the next instant nx + j * period (j integer) strictly after now.
+   As before this is a statement about complete runs of the composite model: for every list of
+   tasks over the fragment the run ends, every task has finished and has logged exactly
+   exp_run.  The Sleep of an interval keeps its id over all its ticks while every other Sleep
+   gets a fresh one, so the invariant now tracks the ids of Sleeps a task OWNS without having
+   them registered (Base.b_own, b_distinct) -- removal by id still hits the right entry.
+   No FIFO or fairness hypothesis. *)
+Theorem C05_composite_interval_exact :
+  (forall p b, 0 < p -> frag_step (SIvNew p b)) /\ frag_step SIvTick /\ frag_step SIvDrop /\
+  (forall now iv p b r, exp_run now iv (SIvNew p b :: r) = exp_run now (Some (now, p, b)) r) /\
+  (forall now iv r, exp_run now iv (SIvDrop :: r) = exp_run now None r) /\
+  (forall now nx p b r, exp_run now (Some (nx, p, b)) (SIvTick :: r) =
+     N.max now nx :: nx :: exp_run (N.max now nx) (Some (tick_next b nx (N.max now nx) p, p, b)) r) /\
+  (forall now r, exp_run now None (SIvTick :: r) = now :: 0 :: exp_run now None r) /\
+  (forall b nx t p, t <= nx + GRACE -> tick_next b nx t p = nx + p) /\
+  (forall nx t p, tick_next Burst nx t p = nx + p) /\
+  (forall nx t p, nx + GRACE < t -> tick_next Delay nx t p = t + p) /\
+  (forall nx t p, nx + GRACE < t -> 0 < p ->
+     tick_next Skip nx t p = nx + ((t - nx) / p + 1) * p /\ t < tick_next Skip nx t p <= t + p) /\
+  (forall busy now start p k r,
+     exp_run now (Some (start + N.of_nat k * p, p, Burst)) (ticks busy ++ r) =
+     burst_log now start p k busy ++
+     exp_run (burst_end now start p k busy) (Some (start + N.of_nat (k + length busy) * p, p, Burst)) r) /\
+  (forall ts, Forall init_ok ts ->
+     exists w, run_tasks true ts = (w, true) /\
+       Forall2 (fun tk0 tk => t_fin tk = true /\ t_log tk = exp_run (t_start tk0) None (t_steps tk0)) ts (w_tasks w)).
+Proof.
+  split; [intros p b H; exact H|]. split; [exact I|]. split; [exact I|].
+  split; [reflexivity|]. split; [reflexivity|]. split; [reflexivity|]. split; [reflexivity|].
+  split; [exact tick_next_nominal|]. split; [exact tick_next_burst|]. split; [exact tick_next_delay|].
+  split; [exact tick_next_skip|]. split; [exact exp_run_burst|exact composite_sleep_exact].
+Qed.
+Print Assumptions C05_composite_interval_exact.
+
+(* (4) the biased two-way select! of step 13 (keep-alive timer) inside the proved fragment:
+     let kept = Box::pin(sleep(d0)); poll it once; kept.reset(now + d2);
+     select! { biased; _ = &mut kept => 0, _ = sleep(x) => 1 }
+     on 1:  rearm: kept.reset(now + d3); kept.await      otherwise: drop(kept)
+   begun at [now] (d2, x, d3 finite; d0 ARBITRARY, also Duration::MAX -- the far-future
+   constructor path -- since that deadline only exists between the first poll and the reset).
+   The select returns at now + min(d2, x); branch 0 iff d2 <= x -- the kept timer wins the tie
+   because `biased` polls it first; on branch 1 the re-armed timer is awaited until exactly
+   (now + x) + d3, the task logging [now + x; 1; now + x + d3] (without rearm [now + x; 1; now + x]).
+   The losing Sleep is removed from the driver by its id at that instant; the re-armed timer
+   keeps ITS id and is registered a second time under the new deadline (Sleep::reset removes
+   the old entry through the handle) -- the invariant shows no entry is lost or hit twice.
+   Complete runs of the composite model, any number of tasks on both modules, mixed with all
+   other steps of the fragment: the run ends, all tasks finished, logs = exp_run.
+   No FIFO or fairness hypothesis: both branches of this select are timers of the same task,
+   polled in program order within one poll of the task. *)
+Theorem C05_composite_keepalive_select_exact :
+  (forall rearm d0 d2 x d3, d2 < FARK -> x < FARK -> d3 < FARK -> frag_step (SKeep rearm d0 d2 x d3)) /\
+  (forall now iv rearm d0 d2 x d3 r, exp_run now iv (SKeep rearm d0 d2 x d3 :: r) =
+     if d2 <=? x then (now + d2) :: 0 :: exp_run (now + d2) iv r
+     else (now + x) :: 1 :: (now + x + (if rearm then d3 else 0)) :: exp_run (now + x + (if rearm then d3 else 0)) iv r) /\
+  (forall ts, Forall init_ok ts ->
+     exists w, run_tasks true ts = (w, true) /\
+       Forall2 (fun tk0 tk => t_fin tk = true /\ t_log tk = exp_run (t_start tk0) None (t_steps tk0)) ts (w_tasks w)).
+Proof.
+  split; [intros rearm d0 d2 x d3 H1 H2 H3; repeat split; assumption|].
+  split; [intros now iv rearm d0 d2 x d3 r; cbn [exp_run]; destruct (d2 <=? x); reflexivity|exact composite_sleep_exact].
+Qed.
+Print Assumptions C05_composite_keepalive_select_exact.
+
+(* (4') beyond the list: select! over two fresh sleeps (step 4), biased or not, is in the proved
+   fragment as well.  select! { sleep(a) => 0, sleep(b) => 1 } begun at [now] (a, b finite) returns
+   at exactly now + min(a, b); the branch is 0 if a < b, 1 if b < a, and on a tie 0 under
+   `biased`; without `biased` tokio may take either branch of a tie, which the scripts log as
+   2 (sel_code) -- the instant is now + a = now + b in both cases.  The losing Sleep is removed
+   from the driver at that instant. *)
+Theorem C05_composite_select_exact :
+  (forall biased a b, a < FARK -> b < FARK -> frag_step (SSelect biased a b)) /\
+  (forall now iv biased a b r, exp_run now iv (SSelect biased a b :: r) =
+     (now + N.min a b) :: (if a <? b then 0 else if b <? a then 1 else if biased then 0 else 2) :: exp_run (now + N.min a b) iv r) /\
+  (forall ts, Forall init_ok ts ->
+     exists w, run_tasks true ts = (w, true) /\
+       Forall2 (fun tk0 tk => t_fin tk = true /\ t_log tk = exp_run (t_start tk0) None (t_steps tk0)) ts (w_tasks w)).
+Proof.
+  split; [intros biased a b H1 H2; split; assumption|]. split; [|exact composite_sleep_exact].
+  intros now iv biased a b r. cbn [exp_run]. rewrite sel_code_cases. reflexivity.
+Qed.
+Print Assumptions C05_composite_select_exact.
+
 Theorem C05_fragment_scripts_decode_ok : forall input,
-  Forall (fun tk => Forall frag_step (t_steps tk) /\ Forall (fun x => x < TMAX) (exp_run (t_start tk) (t_steps tk))) (decode input) ->
+  Forall (fun tk => Forall frag_step (t_steps tk) /\ Forall (fun x => x < TMAX) (exp_run (t_start tk) None (t_steps tk))) (decode input) ->
   Forall init_ok (decode input).
 Proof. exact decode_init_ok. Qed.
 Print Assumptions C05_fragment_scripts_decode_ok.
@@ -391,7 +486,7 @@ Proof. vm_compute. reflexivity. Qed.
 Example C05_nonvacuous_reset_drop :
   let script := [1; 3; 10; 0; 0; 6; 1; 5; 10; 7; 5; 1; 10; 9; 0; 3; 7; 7; 6; 1; 20; 7; 8; 12; 1; 0; 1; 10; 6; 0; 3; 0; 6; 1; 4; 4] in
   Forall init_ok (decode script) /\
-  map (fun tk => exp_run (t_start tk) (t_steps tk)) (decode script) = [[10; 10; 20]; [3; 10; 10]; [10; 10; 14]] /\
+  map (fun tk => exp_run (t_start tk) None (t_steps tk)) (decode script) = [[10; 10; 20]; [3; 10; 10]; [10; 10; 14]] /\
   firstn 17 (run script) = [3; 10; 10; 20; 1;  3; 3; 10; 10; 1;  3; 10; 10; 14; 1;  1; 20].
 Proof.
   cbn zeta. split; [|vm_compute; split; reflexivity].
@@ -409,8 +504,68 @@ Example C05_nonvacuous_timeout_sleep :
   let script := [1; 3; 15; 0; 0; 3; 10; 0; 4; 3; 5; 0; 5; 3; 3; 0; 8; 8;  16; 1; 2; 3; 2; 0; 2; 1; 5; 3; 0; 0; 1; 3; 4; 0; 0;
                  12; 0; 0; 3; 7; 0; 9; 1; 2; 3; 3; 0; 3] in
   Forall init_ok (decode script) /\
-  map (fun tk => exp_run (t_start tk) (t_steps tk)) (decode script) = [[4; 1; 9; 1; 12; 0; 12]; [4; 1; 9; 9; 0; 9; 1]; [7; 0; 9; 12; 1]] /\
+  map (fun tk => exp_run (t_start tk) None (t_steps tk)) (decode script) = [[4; 1; 9; 1; 12; 0; 12]; [4; 1; 9; 9; 0; 9; 1]; [7; 0; 9; 12; 1]] /\
   firstn 27 (run script) = [7; 4; 1; 9; 1; 12; 0; 12; 1;  7; 4; 1; 9; 9; 0; 9; 1; 1;  5; 7; 0; 9; 12; 1; 1;  1; 12].
+Proof.
+  cbn zeta. split; [|vm_compute; split; reflexivity].
+  apply decode_init_ok. init_ok_by_computation.
+Qed.
+
+(* non-vacuity of (3): period 10 ms, three tasks on two modules, each: tick, tick, 27 ms of
+   work, tick (nominal instant 20 ms, taken 17 ms late), tick.  Task 0, Skip: the fourth tick
+   is at 40 ms, the next instant of the schedule after 37 ms.  Task 1, Burst: the fourth tick,
+   nominal 30 ms, returns at once at 37 ms; then a log.  Task 2 (module 1, spawned by a message
+   at 3 ms), Delay: the third tick is taken at 40 ms (nominal 23 ms), the fourth at 50 ms = 40 ms +
+   period; then sleeps of 2 ms and 1 ms around the drop of the interval. *)
+Example C05_nonvacuous_interval :
+  let script := [1; 3; 10; 0; 0; 5; 10000000; 2; 4; 0; 27000000; 0; 0;  11; 0; 0; 5; 10000000; 0; 4; 0; 27000000; 0; 0; 8;
+                 12; 1; 3000000; 5; 10000000; 1; 4; 0; 27000000; 0; 2000000; 1; 1000000] in
+  Forall init_ok (decode script) /\
+  map (fun tk => exp_run (t_start tk) None (t_steps tk)) (decode script) =
+    [[0; 0; 10000000; 10000000; 37000000; 37000000; 20000000; 40000000; 40000000];
+     [0; 0; 10000000; 10000000; 37000000; 37000000; 20000000; 37000000; 30000000; 37000000];
+     [3000000; 3000000; 13000000; 13000000; 40000000; 40000000; 23000000; 50000000; 50000000; 52000000; 53000000]] /\
+  firstn 38 (run script) =
+    [9; 0; 0; 10000000; 10000000; 37000000; 37000000; 20000000; 40000000; 40000000; 1;
+     10; 0; 0; 10000000; 10000000; 37000000; 37000000; 20000000; 37000000; 30000000; 37000000; 1;
+     11; 3000000; 3000000; 13000000; 13000000; 40000000; 40000000; 23000000; 50000000; 50000000; 52000000; 53000000; 1;
+     1; 53000000].
+Proof.
+  cbn zeta. split; [|vm_compute; split; reflexivity].
+  apply decode_init_ok. init_ok_by_computation.
+Qed.
+
+(* non-vacuity of (4): three tasks on two modules.  Task 0: kept timer created far-future
+   (Duration::MAX), armed for 10, sleep(4) wins at 4, re-armed for 7 more: [4; 1; 11]; then a
+   tie (d2 = x = 3): the kept timer wins at 14; log.  Task 1 (module 1, spawned by a message at
+   2): no rearm, sleep(2) wins: [4; 1; 4]; x = 0 with rearm d3 = 0: [4; 1; 4] at once; d2 = 0: [4; 0]
+   at once; x = 0 with rearm 3 (created far-future): blocks on the re-armed timer in its first
+   poll, [4; 1; 7].  Task 2 (module 0): sleep(4), then sleep(7) wins at 11 -- the instant task 0's
+   re-armed timer fires, same slot -- and re-arms to 16. *)
+Example C05_nonvacuous_keepalive_select :
+  let script := [1; 3; 15; 0; 0; 13; 1; 2305843009213693952; 10; 4; 7; 13; 0; 5; 3; 3; 0; 8;
+                 26; 1; 2; 13; 0; 0; 9; 2; 1; 13; 1; 1; 5; 0; 0; 13; 1; 1; 0; 3; 2; 13; 1; 2305843009213693952; 6; 0; 3;
+                 10; 0; 0; 1; 4; 13; 1; 3; 8; 7; 5] in
+  Forall init_ok (decode script) /\
+  map (fun tk => exp_run (t_start tk) None (t_steps tk)) (decode script) =
+    [[4; 1; 11; 14; 0; 14]; [4; 1; 4; 4; 1; 4; 4; 0; 4; 1; 7]; [4; 11; 1; 16]] /\
+  firstn 29 (run script) = [6; 4; 1; 11; 14; 0; 14; 1;  11; 4; 1; 4; 4; 1; 4; 4; 0; 4; 1; 7; 1;  4; 4; 11; 1; 16; 1;  1; 16].
+Proof.
+  cbn zeta. split; [|vm_compute; split; reflexivity].
+  apply decode_init_ok. init_ok_by_computation.
+Qed.
+
+(* non-vacuity of (4'): task 0: biased select(3, 7) takes 0 at 3; unbiased tie select(5, 5): 2 at 8;
+   biased tie: 0 at 13; select(9, 2) takes 1 at 15; log.  Task 1 (module 1, message at 1): a = 0,
+   b = 0 with a > 0, and the unbiased tie a = b = 0, all at once at 1.  Task 2 (module 0): sleep to 7
+   (from 3), select(6, 3) takes 1 at 10. *)
+Example C05_nonvacuous_select :
+  let script := [1; 3; 19; 0; 0; 4; 1; 3; 7; 4; 0; 5; 5; 4; 1; 5; 5; 4; 0; 9; 2; 8;
+                 14; 1; 1; 4; 0; 0; 4; 4; 1; 2; 0; 4; 0; 0; 0;   8; 0; 3; 1; 4; 4; 1; 6; 3] in
+  Forall init_ok (decode script) /\
+  map (fun tk => exp_run (t_start tk) None (t_steps tk)) (decode script) =
+    [[3; 0; 8; 2; 13; 0; 15; 1; 15]; [1; 0; 1; 1; 1; 2]; [7; 10; 1]] /\
+  firstn 25 (run script) = [9; 3; 0; 8; 2; 13; 0; 15; 1; 15; 1;  6; 1; 0; 1; 1; 1; 2; 1;  3; 7; 10; 1; 1;  1].
 Proof.
   cbn zeta. split; [|vm_compute; split; reflexivity].
   apply decode_init_ok. init_ok_by_computation.
